@@ -138,10 +138,25 @@ func (g *G) Bytes(label string) []byte {
 			copy(b[n-6:], "\"\\\n<&") // bytes that need escaping only at the far end, after kilobytes of clean text
 		}
 		return b
+	case c == 18:
+		// code points a sanitiser may single out, all valid UTF-8 and all legitimate text: C1 controls, line and
+		// paragraph separators, bidi controls, zero-width joiner, BOM, soft hyphen, format characters beyond the
+		// basic plane (tag characters of flag emoji, musical formatting), non-characters, the ends of the planes,
+		// the replacement character itself, an ANSI colour sequence
+		n := rapid.IntRange(1, 4).Draw(t, label+".un")
+		var b []byte
+		for i := 0; i < n; i++ {
+			b = append(b, rapid.SampledFrom(UnicodeSpecials).Draw(t, label+".u")...)
+		}
+		return b
 	default:
 		return []byte(rapid.StringMatching(`[a-z]{1,8}`).Draw(t, label+".w"))
 	}
 }
+
+// UnicodeSpecials: see Bytes.
+var UnicodeSpecials = []string{"\u0080", "\u0085", "\u009f", "\u00ad", "\u2028", "\u2029", "\u202a", "\u202e", "\u2066", "\u2069", "\u200b", "\u200d", "\ufeff", "\ufffd", "\ufffe", "\uffff",
+	"\ud7ff", "\ue000", "\U0001d173", "\U000e0001", "\U000e0067", "\U000e007f", "\U0001f3f4\U000e0067\U000e0062\U000e0065\U000e006e\U000e0067\U000e007f", "\U0010ffff", "\U00010000", "\x1b[31mred\x1b[0m", "a", " "}
 
 func (g *G) Key(label string) []byte {
 	if g.cfg.UniqueKeys {
